@@ -161,6 +161,7 @@ impl Pipe {
             delivery_optional: false,
             bound_ms,
             sched: Sched::Immediate,
+            keep_read_track: false,
         }
     }
 }
